@@ -45,19 +45,19 @@ kinds! {
 /// |---|---|---|---|---|
 /// | Pin/Unpin/Reactivate/Flush | guard | | | |
 /// | ReactAfter | guard | body (0 noop, 1 panic, 2 nested pin+unpin, 3 pin+flush+unpin) | | |
-/// | New | dst rc | extra-from rc (99 none) | rank class (0 = random rank) | |
+/// | New | dst rc | extra-from rc (99 none) | rank class (0 = random rank) | 0 plain-Rc field; 1 AtomicRc::from(&Rc), 2 AtomicRc::from(Rc), 3 AtomicWeak::from(&Rc), 4 AtomicWeak::from(&Weak) |
 /// | NewMany | n | | | |
 /// | NewIter | count | take | abort? | guard |
 /// | Clone | src rc | dst rc | | |
 /// | DropRc | rc | | | |
 /// | Finalize | rc | guard | | |
-/// | Downgrade | rc | dst weak | | |
+/// | Downgrade | rc | dst weak | guard | 1 = Weak::from(rc.snapshot(guard)) |
 /// | WeakMany | rc | n | | |
 /// | SnapOf | rc | guard | dst snap | |
 /// | RcTag/SnapTag/WTag/WsTag | slot | tag index | | |
 /// | DerefRc/DerefSnap | slot | | | |
-/// | Counted | snap | dst rc | | |
-/// | SnapDown | snap | dst wsnap | | |
+/// | Counted | snap | dst rc | | 1 = Rc::from(snapshot) |
+/// | SnapDown | snap | dst wsnap | | 1 = WeakSnapshot::from(snapshot) |
 /// | Load | cell | guard | dst snap | |
 /// | Store | cell | src rc (empty = null) | guard | |
 /// | Swap | cell | rc (in/out) | | |
@@ -67,7 +67,7 @@ kinds! {
 /// | DropW | weak | | | |
 /// | Upgrade | weak | dst rc | | |
 /// | WSnapOf | weak | guard | dst wsnap | |
-/// | WsCounted | wsnap | dst weak | | |
+/// | WsCounted | wsnap | dst weak | | 1 = Weak::from(weak snapshot) |
 /// | WsUpgrade | wsnap | dst snap | | |
 /// | LoadW | wcell | guard | dst wsnap | |
 /// | StoreW | wcell | src weak | guard | |
